@@ -383,6 +383,8 @@ def run(model: RepoModel, rep, tier: str):
             continue
         local_sets = {n.targets[0].id for n in walk_no_nested(f.node) if isinstance(n, ast.Assign) and isinstance(n.targets[0], ast.Name)
                       and _is_set_expr(n.value)}
+        local_ann_sets = {n.target.id: norm(n.annotation) for n in walk_no_nested(f.node) if isinstance(n, ast.AnnAssign) and isinstance(n.target, ast.Name)
+                          and (norm(n.annotation) == "set" or norm(n.annotation).lower().startswith("set["))}
         local_field_sets = {n.targets[0].id: field_set(n.value) for n in walk_no_nested(f.node) if isinstance(n, ast.Assign) and isinstance(n.targets[0], ast.Name)
                             and field_set(n.value)}
         for n in walk_no_nested(f.node):
@@ -400,6 +402,8 @@ def run(model: RepoModel, rep, tier: str):
                 what = ("field", field_set(it))
             elif dictset(it):
                 what = ("dictset", dictset(it))
+            elif isinstance(it, ast.Name) and it.id in local_ann_sets:
+                what = ("annlocal", it.id)
             elif isinstance(it, ast.Name) and it.id in local_field_sets:
                 what = ("field", local_field_sets[it.id])
             if what is None:
@@ -410,6 +414,17 @@ def run(model: RepoModel, rep, tier: str):
                 kind, ev = field_set_kind(what[1])
             elif what[0] == "dictset":
                 kind, ev = dictset_kind(what[1])
+            elif what[0] == "annlocal":
+                ann_ = local_ann_sets[what[1]]
+                inner_ = ann_[ann_.index("[") + 1:-1] if "[" in ann_ else ""
+                if inner_ == "int":
+                    kind, ev = "int", ann_
+                elif inner_ == "str":
+                    kind, ev = "str", ann_
+                elif inner_[:1].isupper():
+                    kind, ev = _hash_kind_of_class(model, f, inner_), f"{what[1]}: {ann_}"
+                else:
+                    kind, ev = "unknown", ann_
             else:
                 kind, ev = ("unknown", "") if what[0] == "expr" else _elem_kind(f, what[1], what[0] == "attr", model)
             if kind == "unknown" and isinstance(n.target, ast.Name):
